@@ -34,7 +34,7 @@ REQUIRED = {"post:marginal_likelihood": 100, "post:loo_likelihood": 100, "post:l
 def jobs(tier, seed):
     n_jobs = 16 if tier == "quick" else 32
     return [{"name": f"score-{j}", "seed": seed, "j": j, "n_cases": 40 if tier == "quick" else 300,
-             "n_select": 2 if tier == "quick" else 10, "n_user_bounds": 2 if tier == "quick" else 7} for j in range(n_jobs)]
+             "n_select": 2 if tier == "quick" else 10, "n_user_bounds": 2 if tier == "quick" else 7, "n_centre": 16 if tier == "quick" else 60} for j in range(n_jobs)]
 
 
 def loo_reference(Kfull, y, m):
@@ -297,6 +297,38 @@ def run_job(job, rec):
             s_sel, s_mid = float(score(hp)), float(score(0.5 * (lo + hi)))
             rec.check(s_sel >= s_mid - 1e-9 * max(abs(s_mid), 1.0), "selected-worse-than-centre",
                       lambda: f"selected hyper-parameters score {s_sel!r}, the centre of the bounds box scores {s_mid!r}", sctx)
+
+    # ------------------------------------------------ the default multi-start optimiser never does worse than the centre of the box:
+    #   (a) smooth data given without errors (badly conditioned near the optimum: line searches end with warnings),
+    #   (b) a single start (n_starts=1) on a kernel with a second, 'everything is noise' optimum
+    for s_ in range(job.get("n_centre", 4)):
+        variant = "noise_free" if s_ % 4 != 3 else "single_start"
+        n = int(rng.integers(10, 21))
+        x = np.sort(rng.uniform(0, 10, size=n))
+        y = np.sin(x * rng.uniform(0.8, 1.25) + rng.uniform(0, 3)) * 10.0 ** rng.uniform(-0.3, 0.3)
+        cv = bool(rng.random() < 0.3)
+        cctx = {"centre_rule": variant, "n": n, "cross_val": cv}
+        rec.context = cctx
+        np.random.seed(int(rng.integers(2**31)))
+        if variant == "noise_free":
+            gp = guarded(GpRegressor, x, y, cross_val=cv)
+        else:
+            y = y + rng.normal(size=n) * 0.4 * np.abs(y).max()
+            gp = guarded(GpRegressor, x, y, kernel=SquaredExponential() + WhiteNoise(), n_starts=1, cross_val=cv)
+        rec.count("selections:centre_rule:" + variant)
+        rec.case(digest("centre", variant, x, y, cv), nontrivial=True)
+        if isinstance(gp, Raised):
+            rec.violation("raised", f"automatic hyper-parameter selection raised {gp!r}", cctx)
+            continue
+        hp = np.asarray(gp.hyperpars, float)
+        lo = np.array([b[0] for b in gp.hp_bounds], float)
+        hi = np.array([b[1] for b in gp.hp_bounds], float)
+        rec.check(bool(np.all(hp >= lo - 1e-9 * (hi - lo)) and np.all(hp <= hi + 1e-9 * (hi - lo))), "selected-outside-bounds",
+                  lambda: f"selected hyper-parameters {hp} outside the advertised bounds {list(zip(lo, hi))}", cctx)
+        score = gp.loo_likelihood if cv else gp.marginal_likelihood
+        s_sel, s_mid = float(score(hp)), float(score(0.5 * (lo + hi)))
+        rec.check(s_sel >= s_mid - 1e-9 * max(abs(s_mid), 1.0), "selected-worse-than-centre",
+                  lambda: f"{variant}: selected hyper-parameters score {s_sel!r}, the centre of the bounds box scores {s_mid!r}", cctx)
 
     # ------------------------------------------------ bounds given by the user for one component are the advertised bounds of its hyper-parameters
     from inference.gp import ChangePoint
